@@ -127,8 +127,14 @@ func Take(v interface{}) Fingerprint {
 				leaf(path, string(rv.Bytes()))
 				return
 			}
-			for i := 0; i < rv.Len(); i++ {
-				walk(rv.Index(i), fmt.Sprintf("%s[%d]", path, i), depth+1)
+			// the spare capacity belongs to the value too: an append by a
+			// reader into it is a write to shared memory
+			full := rv
+			if rv.Cap() > rv.Len() && rv.Cap()-rv.Len() <= 64 {
+				full = rv.Slice(0, rv.Cap())
+			}
+			for i := 0; i < full.Len(); i++ {
+				walk(full.Index(i), fmt.Sprintf("%s[%d]", path, i), depth+1)
 			}
 		case reflect.Array:
 			for i := 0; i < rv.Len(); i++ {
